@@ -27,6 +27,7 @@ from .ir import strip_casts
 EQ0 = {"ok": [0], "fail": [-1]}
 GE0 = {"ok": [0, 1], "fail": [-1]}
 NONNULL = {"ok": [1], "fail": [0]}
+ALWAYS = {"ok": [-1, 0, 1], "fail": []}      # the out slot may hold a new resource whatever the call returns
 
 # function -> {param index: contract}; contract kinds: release | consume(pred) | borrow
 RELEASERS = {
@@ -81,6 +82,9 @@ ACQ_RET = {
 ACQ_OUT = {
     "vasprintf": (0, GE0),
     "json_object_deep_copy": (1, EQ0),
+    # the shallow-copy callback stores the new node through dst before the children are copied, so a failed recursive copy
+    # leaves a partially built node in the caller's slot (json_object_deep_copy itself releases *dst on failure)
+    "json_object_deep_copy_recursive": (4, ALWAYS),
 }
 
 # functions that never retain or release their pointer arguments (besides libc string/memory functions)
@@ -309,6 +313,8 @@ class Engine:
             if "O" in st:
                 report("overwrite", i, "resource acquired again while the previous instance is still owned")
             if res.kind == "ret":
+                return frozenset(["O"])
+            if res.out_pred is ALWAYS:
                 return frozenset(["O"])
             return frozenset([("A", i.res)])  # out-param: acquired iff call result says success
         if i.op == "store":
@@ -644,8 +650,12 @@ def _loop_carried(eng, r):
     return False
 
 
-def rule_leaks(chk, prog, rid, only_functions=None, floor=40):
-    chk.rule(rid, "a local that owns an allocation/reference is released, returned or handed over on every path to a "
+NODE_ACQUIRERS = frozenset(k for k in ACQ_RET if k.startswith("json_object_") or k.startswith("json_tokener_parse")
+                           or k == "_json_object_new_string") | {"json_object_deep_copy", "json_object_deep_copy_recursive"}
+
+
+def rule_leaks(chk, prog, rid, only_functions=None, floor=40, acquirers=None, text=None):
+    chk.rule(rid, text or "a local that owns an allocation/reference is released, returned or handed over on every path to a "
                   "return, including the branches where a later allocation or a consuming call fails")
     n = 0
     for f in prog.all_functions():
@@ -657,6 +667,8 @@ def rule_leaks(chk, prog, rid, only_functions=None, floor=40):
             continue
         chk.touched(f)
         for r in ress:
+            if acquirers is not None and r.acq.callee not in acquirers:
+                continue
             n += 1
             sig = "%s(%s)" % (r.acq.callee, ", ".join(eng.P.path(a) for a in r.acq.ops))
             if _loop_carried(eng, r):
